@@ -6,7 +6,8 @@ From Coq Require Import List ZArith QArith Bool.
 From PV Require Import lib.Sx lib.Str lib.Result model.SccTime model.SccStash model.SccPopon spec.SpecSccTime.
 From PV Require Import model.SccDecoder spec.Spec608 spec.SpecScc05.
 From PV Require Import proofs.SccTimeFacts proofs.SccStashFacts proofs.SccPoponFacts proofs.SccPoponStage1 proofs.SccPoponTimesFacts proofs.SccPoponStage4 proofs.SccPoponStage3 proofs.SccPoponStage6 proofs.SccPoponStage5 proofs.SccPoponStage7 proofs.SccPoponStage8 proofs.SccPoponStage9.
-From PV Require Import spec.SpecSccTime2 proofs.SccTimesComposeFacts.
+From PV Require Import spec.SpecSccTime2 proofs.SccTimesComposeFacts proofs.SccLineLayoutFacts.
+From PV Require Import model.SccTokenise proofs.SccTokeniseFacts proofs.SccTextFacts.
 Import ListNotations.
 
 (* the string surgery of get_time (`_time[:-2] + str(int(_time[-2:]) + frames)`), the regex prefix match, the split
@@ -193,6 +194,47 @@ Theorem C06_read_is_statement_spans : forall d off drop segs,
             res_span_eq r (expected_with thr_hi (map (tseg_spec_event d off) segs)).
 Proof. exact read_is_statement_spans. Qed.
 Print Assumptions C06_read_is_statement_spans.
+
+(* ---- wave 5: other stream layouts. The reader model is invariant under cutting / joining timecode lines when every word
+   keeps its instant (relayout, see C05_read_layout_invariant), so popon_times holds for every such layout of the same word
+   sequence: loads split over lines, several loads on one line, and the writer's inline layout in which the
+   Erase-Displayed-Memory code stands on the same line as a load (a join of the clear line with the adjacent load line). *)
+Theorem C06_popon_times_layout : forall d off segs evs ls',
+  forallb pseg_ok8 segs = true -> res_map (pseg_event d off) segs = Ok evs -> positive evs ->
+  relayout off (map (pseg_line d) segs) ls' ->
+  spans_of (read off ls')
+  = rmap (fun spans => flat_map bspans (combine (ploads_of segs) spans)) (expected_with join_threshold evs).
+Proof. exact popon_times_layout. Qed.
+Print Assumptions C06_popon_times_layout.
+Theorem C06_popon_times_cuts : forall d off segs evs lss,
+  forallb pseg_ok8 segs = true -> res_map (pseg_event d off) segs = Ok evs -> positive evs ->
+  Forall2 (fun s pieces => cuts off (fst (pseg_line d s)) (snd (pseg_line d s)) pieces) segs lss ->
+  spans_of (read off (concat lss))
+  = rmap (fun spans => flat_map bspans (combine (ploads_of segs) spans)) (expected_with join_threshold evs).
+Proof. exact popon_times_cuts. Qed.
+Print Assumptions C06_popon_times_cuts.
+Theorem C06_popon_times_merged : forall d off segs1 s1 s2 segs2 evs,
+  let segs := segs1 ++ s1 :: s2 :: segs2 in
+  forallb pseg_ok8 segs = true -> res_map (pseg_event d off) segs = Ok evs -> positive evs ->
+  same_clock off (fst (pseg_line d s1)) (Z.of_nat (length (snd (pseg_line d s1)))) (fst (pseg_line d s2)) ->
+  spans_of (read off (map (pseg_line d) segs1 ++ [(fst (pseg_line d s1), snd (pseg_line d s1) ++ snd (pseg_line d s2))]
+                      ++ map (pseg_line d) segs2))
+  = rmap (fun spans => flat_map bspans (combine (ploads_of segs) spans)) (expected_with join_threshold evs).
+Proof. exact popon_times_merged. Qed.
+Print Assumptions C06_popon_times_merged.
+(* ... and at the level of the SCC TEXT (Coq tokeniser, lower- / upper-case hex, LF / CRLF / CR line ends) *)
+Theorem C06_popon_times_text : forall d off segs evs ls' up eol,
+  forallb pseg_ok8 segs = true -> res_map (pseg_event d off) segs = Ok evs -> positive evs ->
+  relayout off (map (pseg_line d) segs) ls' -> Forall wf_sline ls' -> good_eol eol ->
+  spans_of (read off (tokenise (render_gen up eol ls')))
+  = rmap (fun spans => flat_map bspans (combine (ploads_of segs) spans)) (expected_with join_threshold evs).
+Proof. exact popon_times_text. Qed.
+Print Assumptions C06_popon_times_text.
+(* non-vacuity: the load of 00:00:01:00 and the clear line written on ONE line / the load cut in two *)
+Example C06_layout_instance : forall off,
+  relayout off ex_one_line ex_split /\
+  relayout off [(lit "00:00:01:00", ex_a ++ ex_b); (lit "00:00:01:07", [37932])] ex_merged.
+Proof. intro off. split; [apply ex_relayout|apply ex_relayout_merged]. Qed.
 
 (* known defect #20 (offset beyond the timecodes): instants floored to 0 collide with the end == 0 sentinel *)
 Theorem C06_end_zero_sentinel_refuted :
